@@ -109,6 +109,18 @@ def subspaces(tier):
                 for (s1, n1), (s2, n2) in (((0x100, 11), (0x40, 3)), ((0x40, 3), (0x100, 11)), ((0x10, 1), (0x11, 7)), ((0x200, 16), (0x20, 16))):
                     yield {'fmt': f, 'recs': [[0x76, s1, n1], [0x76, s2, n2]], 'entry': None, 'opts': o}
     subs.append(('four-byte-granular-intel', quad()))
+
+    def dskmico():
+        # TI DSK (16-bit words, program and data memory) and Lattice Mico8 (18-bit words without addresses)
+        for seg in (1, 2):
+            for st in (0, 1, 0x7ff0, 0xfff0):
+                for nw in (1, 2, 7, 8, 9, 17):
+                    for ent in (None, 0x123):
+                        yield {'fmt': 'DSK', 'recs': [[0x74, st, nw]], 'entry': ent, 'opts': [], 'seg': seg}
+        for nw in (1, 2, 3, 16, 17, 300):
+            for salt in (0, 1, 2):
+                yield {'fmt': 'Mico8', 'recs': [[0x5c, 0, nw]], 'entry': None, 'opts': [], 'salt': salt}
+    subs.append(('ti-dsk-and-mico8', dskmico()))
     return subs
 
 
@@ -118,7 +130,53 @@ def describe(case):
                                      ' entry=%x' % case['entry'] if case['entry'] is not None else '')
 
 
+def ev_wordlist(case):
+    """DSK and Mico8: word-oriented formats with their own decoders"""
+    core.fresh()
+    fmt = case['fmt']
+    cpu, st, nw = case['recs'][0]
+    d = describe(case)
+    if fmt == 'DSK':
+        words = [(i * 0x1357 + 0x00ff + st) & 0xffff for i in range(nw)]
+        data = b''.join(w.to_bytes(2, 'little') for w in words)
+        wr = [dict(kind='data', cpu=cpu, seg=case['seg'], gran=2, start=st, data=data, short=False)]
+        if case['entry'] is not None:
+            wr.append(dict(kind='entry', entry=case['entry']))
+        args = ['-F', 'DSK'] + (['-segment', 'data'] if case['seg'] == 2 else [])
+    else:
+        # every word has all-ones, all-zeros and mixed bytes in its middle position
+        words = [((i + case['salt']) % 4) << 16 | ((0xff, 0x00, 0xa5, 0xfe)[(i + case['salt']) % 4]) << 8 | (i * 37 + 1) & 0xff for i in range(nw)]
+        data = b''.join(w.to_bytes(4, 'big') for w in words)
+        wr = [dict(kind='data', cpu=cpu, seg=1, gran=4, start=0, data=data, short=False)]
+        args = ['-F', 'Mico8']
+    core.put('a.p', pfile.write(wr))
+    o = core.run('p2hex', ['-q', 'a.p', 'a.hex'] + args)
+    ck = core.crashkind(o)
+    if ck:
+        return core.R(False, ck, 'crash/%s/%s' % (ck, fmt), '%s on %s' % (ck, d))
+    if o.rc != 0:
+        return core.R(False, 'rc', 'rc/' + fmt, 'exit %s %s on %s' % (o.rc, o.err[:100].decode('latin-1'), d))
+    text = (core.get('a.hex') or b'').decode('latin-1').replace('\r', '')
+    try:
+        mem, entry, info = (hexfmt.dec_dsk if fmt == 'DSK' else hexfmt.dec_mico8)(text)
+    except hexfmt.FmtErr as e:
+        return core.R(False, 'format', 'format/%s/%s' % (fmt, str(e).split('(')[0].strip()[:40].replace(' ', '-')), '%s: %s on %s\n%s' % (fmt, e, d, text[:300]))
+    if fmt == 'DSK':
+        tag = 'B' if case['seg'] == 1 else 'M'
+        want = {(tag, (st + i) & 0xffff): w for i, w in enumerate(words)}
+        if entry != case['entry']:
+            return core.R(False, 'entry', 'entry/DSK', 'entry record %s, code file %s on %s' % (entry, case['entry'], d))
+    else:
+        want = dict(enumerate(words))
+    if mem != want:
+        bad = [a for a in sorted(set(mem) | set(want), key=str) if mem.get(a) != want.get(a)][:3]
+        return core.R(False, 'contents', 'contents/%s' % fmt, 'decoded contents differ at %s (decoded, model): %s on %s' % (bad, [(mem.get(a), want.get(a)) for a in bad], d))
+    return core.R(True, 'decoded-ok', states=['%s/%d' % (fmt, nw)])
+
+
 def evaluate(case):
+    if case['fmt'] in ('DSK', 'Mico8'):
+        return ev_wordlist(case)
     core.fresh()
     fmt = case['fmt']
     recs = []
